@@ -39,6 +39,27 @@ reg("C05", "explicit-state exploration of the product of parglare's LR automaton
     "the driver binding; grammar-size bound remains",
     "DESIGN.md section 8 C05")
 
+reg("C04", "bounded-exhaustive exploration of the real LR Parser over all small "
+    "grammars x 8 table configurations x (all short inputs + inputs generated "
+    "from every state of the parser's own table), chart reference",
+    "Soundness (accept => sentence, tree is a derivation) for every "
+    "constructible Parser; exactness (unambiguous, accepts every sentence, "
+    "GLR returns the same single tree) whenever every table cell holds one "
+    "action with all strategies off. Exhaustive within the bounds.",
+    "trusted: chart/SPPF reference, Earley for generated inputs; LR "
+    "non-termination with resolved conflicts is counted, not judged here",
+    "DESIGN.md section 8 C04")
+reg("C06", "bounded-exhaustive exploration: every operator table up to 4 (6 "
+    "restricted) operators x every expression up to 3-4 operators, LR and GLR, "
+    "against a precedence-climbing reference; plus every annotation of every "
+    "reference-LALR(1) small grammar",
+    "Every weak ordering x associativity x alternative order x base position "
+    "x meta-data style is built and every well-formed expression is parsed by "
+    "Parser (strategies off) and GLRParser and compared with precedence "
+    "climbing; annotations on LALR(1) grammars must change nothing.",
+    "trusted: precedence climbing reference, canonical LR(1) for the LALR(1) "
+    "test", "DESIGN.md section 8 C06")
+
 NOT_YET = "check not built yet in this round (planned, see DESIGN.md section 8/12)"
 
 checks = []
